@@ -46,10 +46,10 @@ PROPS['C17'] = {
 _BUS_TB = TB_VERUS + ['assume_specification Vec::into_boxed_slice (same elements)', 'assume_specification std::mem::replace',
                       'VideoState::run_clock_cycles, LCD::new, SerialComms::set_control are external_body in this unit (contracts assumed here; see C14 / C18)']
 PROPS['C10'] = {
-    'level': 'proof', 'verus': ['bus'], 'trusted_base': _BUS_TB, 'design_ref': 'DESIGN.md 5.10',
+    'level': 'proof', 'verus': ['bus', 'codecache'], 'trusted_base': _BUS_TB, 'design_ref': 'DESIGN.md 5.10',
     'technique': 'Verus contracts: memory_read_byte == read_spec (documented map), memory_write_byte whole-map frame + I/O read-back table, fetch-view contract',
     'level_text': 'memory_read_byte, memory_write_byte, memory_read/write_word, get_executable_memory_slice, IO::get_byte/set_byte and every register getter/setter they reach are extracted from /repo and proved for every address and value under the representation invariant mem_wf: reads equal the documented map read_spec; a write changes exactly one cell of VRAM / cartridge RAM / WRAM / OAM / HRAM (whole-map frame: every other address reads as before), ROM never changes, unmapped regions read a constant and ignore writes, listed I/O registers read back their writable bits, the fetch slice equals data reads in ROM/WRAM/HRAM.',
-    'level_note': 'Trusts Verus/Z3, the extraction rules, read_spec (written from the memory map in the property), assumed contracts of the LCD timing core / stdout. Cartridge-RAM addresses without a RAM cell are specified as unmapped (constant, writes ignored). IE full-byte storage is a recorded finding.',
+    'level_note': 'Trusts Verus/Z3, the extraction rules, read_spec (written from the memory map in the property), assumed contracts of the LCD timing core / stdout. Cartridge-RAM addresses without a RAM cell are specified as unmapped (constant, writes ignored). IE full-byte storage is a recorded finding. Instruction fetch in the translating build = the bytes translate_code_block reads plus the validity of cached translations: the jit variant of Core::run_code_block and translate_code_block (unit codecache: a block\'s bytes come from one region as currently mapped, and it is filed under the current tag) are counted here too; that the emitted code then behaves like those bytes is C01.',
     'assumptions': ['mem_wf is established by MemoryAreas::with_rom (proved) and with_rom_file (unit loader, C19)',
                     'cartridge RAM enable (0x0000-0x1FFF) is not part of the property and not modelled'],
 }
@@ -163,11 +163,11 @@ PROPS['C04'] = {
 }
 
 PROPS['C18'] = {
-    'level': 'proof', 'verus': ['bus'], 'kani': ['misc:serial'], 'scans': ['stdout'], 'design_ref': 'DESIGN.md 5.18',
+    'level': 'proof', 'verus': ['bus'], 'kani': ['misc:serial', 'isa', 'jit'], 'named_only': True, 'scans': ['stdout'], 'design_ref': 'DESIGN.md 5.18',
     'trusted_base': _BUS_TB + ['Kani stubs for io::stdout / <Stdout as Write>::write / flush: a recording stream (the host write is assumed to write the whole 1-byte buffer)'],
     'technique': 'Kani full-domain harness on the real SerialComms::set_control with the host stream stubbed by a recorder; Verus routing contract of IO::set_byte / memory_write_byte; syntactic frame scan for other writers of stdout',
     'level_text': 'serial_set_control (CBMC, all latch/control/value bytes): a control write with bit 7 set emits exactly the byte held in the data register, once; bit 7 clear and data-register writes emit nothing. Verus (unit bus): only addresses 0xFF01/0xFF02 reach the serial port, 0xFF01 latches the value, 0xFF02 hands it to set_control, every other bus write leaves the serial state untouched. Scan: no other print!/println!/stdout use exists in the core modules (default + jit feature set), so nothing else is emitted while a ROM runs. Both execution modes reach set_control through the same memory_write_byte (C01 bus-write equality).',
-    'level_note': 'Program order across instructions follows from the bus-write order obligations of C01/C06. The scan is syntactic (over-approximate): any textual print!/println!/stdout( in core code is reported.',
+    'level_note': 'Program order: within an instruction the order of its bus writes is the check "bus access order and content" of every ISA harness (interpreter) and "same bus writes in the same order" of every JIT harness (translated code); those two checks are counted here too (only those: other failures of the same harnesses belong to C01/C05/C06). Across instructions it is the sequential execution of blocks. A counterexample of serial_set_control is replayed on the real SerialComms with fd 1 redirected to a pipe (replay-serial); run-time text formatting on the stream is over-approximated by a stub, so such a failure is a violation only if the replay shows wrong bytes. The scan is syntactic (over-approximate): any textual print!/println!/stdout( in core code is reported.',
     'assumptions': ['host write() of a 1-byte buffer writes it completely'],
 }
 PROPS['C19'] = {
